@@ -32,7 +32,7 @@ class _LogTap(logging.Handler):
 
 def kernel_drops(port):
     try:
-        with open("/proc/net/udp") as fh:
+        with open("/proc/net/udp", encoding="utf-8") as fh:
             next(fh)
             for line in fh:
                 parts = line.split()
